@@ -14,13 +14,11 @@ theorem nameIdx_lt {table : List AppenderId} {n : AppenderId} {i : Nat}
 
 /-- every snapshot `SharedLogger::new` builds resolves its indices in its own table -/
 theorem mkSnapshot_WF (c : MiniCfg) : (mkSnapshot c).WF := by
-  intro t l i hi
+  intro t i hi
   simp only [mkSnapshot] at hi ⊢
-  split at hi
-  · rw [List.mem_filterMap] at hi
-    obtain ⟨a, _, ha⟩ := hi
-    exact nameIdx_lt ha
-  · simp at hi
+  rw [List.mem_filterMap] at hi
+  obtain ⟨a, _, ha⟩ := hi
+  exact nameIdx_lt ha
 
 theorem resolve_nil (s : Snapshot) : resolve s [] = [] := rfl
 
@@ -78,8 +76,8 @@ def Event.WF : Event → Prop
 
 def Sys.Inv (sys : Sys) : Prop := sys.store.WF ∧ ∀ th ∈ sys.threads, th.Inv
 
-theorem Thread.step_target (reload : Bool) (store : Snapshot) (tid : Nat) (th : Thread) :
-    (th.step reload store tid).1.target = th.target ∧ (th.step reload store tid).1.level = th.level := by
+theorem Thread.step_target (mode : LoadMode) (store : Snapshot) (tid : Nat) (th : Thread) :
+    (th.step mode store tid).1.target = th.target ∧ (th.step mode store tid).1.level = th.level := by
   rcases th with ⟨t, l, pc, al, out⟩
   cases pc with
   | fanout s todo =>
@@ -88,11 +86,13 @@ theorem Thread.step_target (reload : Bool) (store : Snapshot) (tid : Nat) (th : 
     | cons i rest =>
       simp only [Thread.step]
       split <;> simp
+  | loaded s =>
+    cases mode <;> simp only [Thread.step] <;> (try split) <;> simp
   | _ => simp [Thread.step]
 
 /-- one step of the code's `log` keeps the invariant, whatever the store holds at that moment -/
 theorem Thread.step_inv (store : Snapshot) (hs : store.WF) (tid : Nat) (th : Thread) (h : th.Inv) :
-    (th.step false store tid).1.Inv := by
+    (th.step .once store tid).1.Inv := by
   rcases th with ⟨t, l, pc, al, out⟩
   cases pc with
   | init =>
@@ -102,8 +102,8 @@ theorem Thread.step_inv (store : Snapshot) (hs : store.WF) (tid : Nat) (th : Thr
   | loaded s =>
     simp only [Thread.Inv] at h
     obtain ⟨h1, h2, h3⟩ := h
-    simp only [Thread.step, Thread.Inv, Bool.false_eq_true, if_false]
-    refine ⟨h1, h2, fun i hi => h2 _ _ i hi, ?_⟩
+    simp only [Thread.step, Thread.Inv, LoadMode.pick]
+    refine ⟨h1, h2, fun i hi => h2.route _ _ i hi, ?_⟩
     simp [h3, prescribed]
   | fanout s todo =>
     simp only [Thread.Inv] at h
@@ -115,7 +115,7 @@ theorem Thread.step_inv (store : Snapshot) (hs : store.WF) (tid : Nat) (th : Thr
     | cons i rest =>
       have hi : i < s.table.length := h3 i (by simp)
       have hget : s.table[i]? = some s.table[i] := List.getElem?_eq_getElem hi
-      simp only [Thread.step, Bool.false_eq_true, if_false, hget, Thread.Inv]
+      simp only [Thread.step, LoadMode.pick, hget, Thread.Inv]
       refine ⟨h1, h2, fun j hj => h3 j (by simp [hj]), ?_⟩
       rw [← h4, resolve_cons_some s i rest _ hget]
       simp
@@ -133,7 +133,7 @@ theorem Thread.step_inv (store : Snapshot) (hs : store.WF) (tid : Nat) (th : Thr
     exact h
   | panicked => exact h.elim
 
-theorem Sys.apply_inv (sys : Sys) (h : sys.Inv) (e : Event) (he : e.WF) : (sys.apply false e).Inv := by
+theorem Sys.apply_inv (sys : Sys) (h : sys.Inv) (e : Event) (he : e.WF) : (sys.apply .once e).Inv := by
   obtain ⟨hs, ht⟩ := h
   cases e with
   | spawn t l =>
@@ -159,12 +159,12 @@ theorem Sys.apply_inv (sys : Sys) (h : sys.Inv) (e : Event) (he : e.WF) : (sys.a
       · rw [h1]; exact Thread.step_inv sys.store hs tid th (ht th hmem)
 
 theorem Sys.run_inv (sys : Sys) (h : sys.Inv) (evs : List Event) (hev : ∀ e ∈ evs, e.WF) :
-    (sys.run false evs).Inv := by
+    (sys.run .once evs).Inv := by
   induction evs generalizing sys with
   | nil => exact h
   | cons e rest ih =>
     simp only [Sys.run, List.foldl_cons]
-    exact ih (sys.apply false e) (Sys.apply_inv sys h e (hev e (by simp))) (fun e' he' => hev e' (by simp [he']))
+    exact ih (sys.apply .once e) (Sys.apply_inv sys h e (hev e (by simp))) (fun e' he' => hev e' (by simp [he']))
 
 /-! ### which snapshot a call loads -/
 
@@ -173,8 +173,8 @@ that has not loaded yet will load -/
 def LoadsIn (P : Snapshot → Prop) (sys : Sys) (tid : Nat) : Prop :=
   P sys.store ∧ ∃ th, sys.threads[tid]? = some th ∧ ∀ s, th.atLoad = some s → P s
 
-theorem Thread.step_atLoad (reload : Bool) (store : Snapshot) (tid : Nat) (th : Thread) (s : Snapshot)
-    (h : (th.step reload store tid).1.atLoad = some s) : th.atLoad = some s ∨ s = store := by
+theorem Thread.step_atLoad (mode : LoadMode) (store : Snapshot) (tid : Nat) (th : Thread) (s : Snapshot)
+    (h : (th.step mode store tid).1.atLoad = some s) : th.atLoad = some s ∨ s = store := by
   rcases th with ⟨t, l, pc, al, out⟩
   cases pc with
   | fanout s' todo =>
@@ -184,10 +184,12 @@ theorem Thread.step_atLoad (reload : Bool) (store : Snapshot) (tid : Nat) (th : 
       simp only [Thread.step] at h
       split at h <;> simp_all
   | init => simp_all [Thread.step]
+  | loaded s' =>
+    cases mode <;> simp only [Thread.step] at h <;> (try split at h) <;> simp_all
   | _ => simp_all [Thread.step]
 
 theorem LoadsIn.apply {P : Snapshot → Prop} {sys : Sys} {tid : Nat} (h : LoadsIn P sys tid)
-    (reload : Bool) (e : Event) (he : ∀ s, e = .swap s → P s) : LoadsIn P (sys.apply reload e) tid := by
+    (mode : LoadMode) (e : Event) (he : ∀ s, e = .swap s → P s) : LoadsIn P (sys.apply mode e) tid := by
   obtain ⟨hP, th, hth, hat⟩ := h
   cases e with
   | spawn t l =>
@@ -212,29 +214,29 @@ theorem LoadsIn.apply {P : Snapshot → Prop} {sys : Sys} {tid : Nat} (h : Loads
           rcases Nat.lt_or_ge tid' sys.threads.length with h | h
           · exact h
           · rw [List.getElem?_eq_none h] at hth; cases hth
-        refine ⟨(th.step reload sys.store tid').1, by simp [hlt], ?_⟩
+        refine ⟨(th.step mode sys.store tid').1, by simp [hlt], ?_⟩
         intro s hs
-        rcases Thread.step_atLoad reload sys.store tid' th s hs with h1 | h1
+        rcases Thread.step_atLoad mode sys.store tid' th s hs with h1 | h1
         · exact hat s h1
         · rw [h1]; exact hP
       · refine ⟨th, ?_, hat⟩
         simp only
         rw [List.getElem?_set_ne heq]; exact hth
 
-theorem LoadsIn.run {P : Snapshot → Prop} (reload : Bool) (evs : List Event) :
+theorem LoadsIn.run {P : Snapshot → Prop} (mode : LoadMode) (evs : List Event) :
     ∀ {sys : Sys} {tid : Nat}, LoadsIn P sys tid → (∀ s, Event.swap s ∈ evs → P s) →
-      LoadsIn P (sys.run reload evs) tid := by
+      LoadsIn P (sys.run mode evs) tid := by
   induction evs with
   | nil => intro sys tid h _; exact h
   | cons e rest ih =>
     intro sys tid h hev
     simp only [Sys.run, List.foldl_cons]
-    exact ih (h.apply reload e (fun s hs => hev s (by simp [hs]))) (fun s hs => hev s (by simp [hs]))
+    exact ih (h.apply mode e (fun s hs => hev s (by simp [hs]))) (fun s hs => hev s (by simp [hs]))
 
 /-- a call keeps the target and level it was spawned with -/
-theorem Sys.run_target (reload : Bool) (evs : List Event) :
+theorem Sys.run_target (mode : LoadMode) (evs : List Event) :
     ∀ (sys : Sys) (tid : Nat) (th0 th : Thread),
-      sys.threads[tid]? = some th0 → (sys.run reload evs).threads[tid]? = some th →
+      sys.threads[tid]? = some th0 → (sys.run mode evs).threads[tid]? = some th →
       th.target = th0.target ∧ th.level = th0.level := by
   induction evs with
   | nil => intro sys tid th0 th h0 h1; simp [Sys.run] at h1; rw [h0] at h1; cases h1; exact ⟨rfl, rfl⟩
@@ -247,23 +249,23 @@ theorem Sys.run_target (reload : Bool) (evs : List Event) :
       · rw [List.getElem?_eq_none h] at h0; cases h0
     cases e with
     | spawn t' l' =>
-      refine ih (sys.apply reload (.spawn t' l')) tid th0 th ?_ h1
+      refine ih (sys.apply mode (.spawn t' l')) tid th0 th ?_ h1
       simp only [Sys.apply]; rw [List.getElem?_append_left hlt]; exact h0
-    | swap s => exact ih (sys.apply reload (.swap s)) tid th0 th h0 h1
+    | swap s => exact ih (sys.apply mode (.swap s)) tid th0 th h0 h1
     | step tid' =>
       cases hg : sys.threads[tid']? with
       | none =>
-        refine ih (sys.apply reload (.step tid')) tid th0 th ?_ h1
+        refine ih (sys.apply mode (.step tid')) tid th0 th ?_ h1
         simp [Sys.apply, hg, h0]
       | some th' =>
         by_cases heq : tid' = tid
         · subst heq
           rw [h0] at hg; cases hg
-          have := ih (sys.apply reload (.step tid')) tid' (th0.step reload sys.store tid').1 th
+          have := ih (sys.apply mode (.step tid')) tid' (th0.step mode sys.store tid').1 th
             (by simp only [Sys.apply, h0]; simp [hlt]) h1
-          have hst := Thread.step_target reload sys.store tid' th0
+          have hst := Thread.step_target mode sys.store tid' th0
           exact ⟨this.1.trans hst.1, this.2.trans hst.2⟩
-        · refine ih (sys.apply reload (.step tid')) tid th0 th ?_ h1
+        · refine ih (sys.apply mode (.step tid')) tid th0 th ?_ h1
           simp only [Sys.apply, hg]
           rw [List.getElem?_set_ne heq]; exact h0
 
@@ -359,9 +361,9 @@ theorem nameIdx_of_mem {table : List AppenderId} {n : AppenderId} (h : n ∈ tab
   refine ⟨by simp [nameIdx, hlt], ?_⟩
   rw [List.getElem?_eq_getElem hlt, List.getElem_idxOf hlt]
 
-theorem resolve_names (tag : Nat) (table : List AppenderId) (route : Target → Level → List Nat)
+theorem resolve_names (tag : Nat) (table : List AppenderId) (level : Target → Nat) (apps : Target → List Nat)
     (names : List AppenderId) (h : ∀ n ∈ names, n ∈ table) :
-    resolve { tag, table, route } (names.filterMap (nameIdx table)) = names.map (fun n => (tag, n)) := by
+    resolve { tag, table, level, apps } (names.filterMap (nameIdx table)) = names.map (fun n => (tag, n)) := by
   induction names with
   | nil => rfl
   | cons n rest ih =>
@@ -387,10 +389,14 @@ resolving the indices in the snapshot's own table gives back exactly the configu
 theorem prescribed_mkSnapshot (c : MiniCfg) (hv : c.valid = true) (t : Target) (l : Level) :
     prescribed (mkSnapshot c) t l =
       if (c.effective t).1 ≥ l then (c.effective t).2.map (fun n => (c.tag, n)) else [] := by
-  simp only [prescribed, mkSnapshot]
+  simp only [prescribed, mkSnapshot, Snapshot.route]
   split
-  · exact resolve_names c.tag c.table _ _ (c.effective_mem hv t)
-  · rfl
+  · rename_i h
+    simp only [h, if_true]
+    exact resolve_names c.tag c.table _ _ _ (c.effective_mem hv t)
+  · rename_i h
+    simp only [h, if_false]
+    rfl
 
 
 /-! ### the observable trace shows exactly the deliveries of each call -/
@@ -404,9 +410,9 @@ def Sys.TraceInv (sys : Sys) : Prop :=
   (∀ tid th, sys.threads[tid]? = some th → sys.trace.filterMap (delivOf tid) = th.out) ∧
   (∀ tid, sys.threads.length ≤ tid → sys.trace.filterMap (delivOf tid) = [])
 
-theorem Thread.step_obs (reload : Bool) (store : Snapshot) (tid : Nat) (th : Thread) :
-    (th.step reload store tid).1.out = th.out ++ (th.step reload store tid).2.filterMap (delivOf tid) ∧
-    ∀ tid', tid' ≠ tid → (th.step reload store tid).2.filterMap (delivOf tid') = [] := by
+theorem Thread.step_obs (mode : LoadMode) (store : Snapshot) (tid : Nat) (th : Thread) :
+    (th.step mode store tid).1.out = th.out ++ (th.step mode store tid).2.filterMap (delivOf tid) ∧
+    ∀ tid', tid' ≠ tid → (th.step mode store tid).2.filterMap (delivOf tid') = [] := by
   rcases th with ⟨t, l, pc, al, out⟩
   cases pc with
   | fanout s todo =>
@@ -420,10 +426,12 @@ theorem Thread.step_obs (reload : Bool) (store : Snapshot) (tid : Nat) (th : Thr
         intro tid' hne
         simp [Ne.symm hne]
   | errs s => simp [Thread.step, delivOf]
+  | loaded s =>
+    cases mode <;> simp only [Thread.step] <;> (try split) <;> simp
   | _ => simp [Thread.step]
 
-theorem Sys.apply_traceInv (reload : Bool) (sys : Sys) (h : sys.TraceInv) (e : Event) :
-    (sys.apply reload e).TraceInv := by
+theorem Sys.apply_traceInv (mode : LoadMode) (sys : Sys) (h : sys.TraceInv) (e : Event) :
+    (sys.apply mode e).TraceInv := by
   obtain ⟨h1, h2⟩ := h
   cases e with
   | spawn t l =>
@@ -466,7 +474,7 @@ theorem Sys.apply_traceInv (reload : Bool) (sys : Sys) (h : sys.TraceInv) (e : E
         rcases Nat.lt_or_ge tid' sys.threads.length with h | h
         · exact h
         · rw [List.getElem?_eq_none h] at hg; cases hg
-      obtain ⟨ho1, ho2⟩ := Thread.step_obs reload sys.store tid' th'
+      obtain ⟨ho1, ho2⟩ := Thread.step_obs mode sys.store tid' th'
       constructor
       · intro tid th hth
         simp only at hth ⊢
@@ -483,27 +491,36 @@ theorem Sys.apply_traceInv (reload : Bool) (sys : Sys) (h : sys.TraceInv) (e : E
         rw [List.filterMap_append, ho2 tid (by omega), List.append_nil]
         exact h2 tid hge
 
-theorem Sys.run_traceInv (reload : Bool) (evs : List Event) :
-    ∀ (sys : Sys), sys.TraceInv → (sys.run reload evs).TraceInv := by
+theorem Sys.run_traceInv (mode : LoadMode) (evs : List Event) :
+    ∀ (sys : Sys), sys.TraceInv → (sys.run mode evs).TraceInv := by
   induction evs with
   | nil => intro sys h; exact h
   | cons e rest ih =>
     intro sys h
     simp only [Sys.run, List.foldl_cons]
-    exact ih _ (Sys.apply_traceInv reload sys h e)
+    exact ih _ (Sys.apply_traceInv mode sys h e)
 
 /-! ### witnesses used by the non-vacuity theorems of Properties/C15.lean -/
 
-def wOld : Snapshot := { tag := 0, table := [10, 11, 12], route := fun _ _ => [0, 2] }
-def wSmall : Snapshot := { tag := 1, table := [20], route := fun _ _ => [0] }
-def wBig : Snapshot := { tag := 1, table := [20, 21, 22], route := fun _ _ => [1] }
+def wOld : Snapshot := { tag := 0, table := [10, 11, 12], level := fun _ => 5, apps := fun _ => [0, 2] }
+def wSmall : Snapshot := { tag := 1, table := [20], level := fun _ => 5, apps := fun _ => [0] }
+def wBig : Snapshot := { tag := 1, table := [20, 21, 22], level := fun _ => 5, apps := fun _ => [1] }
+/-- a configuration that switches the record's level off -/
+def wQuiet : Snapshot := { tag := 1, table := [20, 21, 22], level := fun _ => 1, apps := fun _ => [1] }
 
 theorem wOld_WF : wOld.WF := by
-  intro t l i hi; simp [wOld] at hi ⊢; omega
+  intro t i hi; simp [wOld] at hi ⊢; omega
 theorem wSmall_WF : wSmall.WF := by
-  intro t l i hi; simp [wSmall] at hi ⊢; omega
+  intro t i hi; simp [wSmall] at hi ⊢; omega
 theorem wBig_WF : wBig.WF := by
-  intro t l i hi; simp [wBig] at hi ⊢; omega
+  intro t i hi; simp [wBig] at hi ⊢; omega
+theorem wQuiet_WF : wQuiet.WF := by
+  intro t i hi; simp [wQuiet] at hi ⊢; omega
+
+/-- the interleaving for the double-load variant: the swap falls between the first load (the
+"is it enabled" check) and the second (find + fan-out) -/
+def wEventsEarly (new : Snapshot) : List Event :=
+  [.spawn 0 3, .step 0, .swap new, .step 0, .step 0, .step 0, .step 0, .step 0, .step 0, .step 0]
 
 /-- the interleaving: one record; the appender at fan-out position 0 calls `set_config` from
 inside `append` (the swap falls between "enter append" and "return from append") -/
